@@ -133,6 +133,45 @@ impl Display for DocumentConfig {
     }
 }
 
+/// Renders text as a double-quoted YAML scalar, so that quotes, backslashes,
+/// colons, commas, braces, `#`, leading or trailing spaces and control
+/// characters in it survive the one-line (flow) form
+fn yaml_quoted(text: &str) -> String {
+    let mut quoted = String::from("\"");
+    for ch in text.chars() {
+        match ch {
+            '"' => quoted.push_str("\\\""),
+            '\\' => quoted.push_str("\\\\"),
+            // not allowed verbatim in YAML (or read as a line break)
+            ch if ch.is_control() || matches!(ch, '\u{2028}' | '\u{2029}' | '\u{feff}') => {
+                quoted.push_str(&format!("\\u{:04x}", ch as u32))
+            }
+            ch => quoted.push(ch),
+        }
+    }
+    quoted.push('"');
+    quoted
+}
+
+/// Renders text as a plain YAML scalar where that is unambiguous (simple names
+/// and paths) and as a double-quoted one otherwise
+fn yaml_scalar(text: &str) -> String {
+    let is_plain = text
+        .chars()
+        .next()
+        .is_some_and(|ch| ch.is_ascii_alphabetic() || "/._".contains(ch))
+        && text
+            .chars()
+            .all(|ch| ch.is_ascii_alphanumeric() || "/._-".contains(ch))
+        && !["true", "false", "null", "yes", "no", "on", "off", "y", "n"]
+            .contains(&text.to_lowercase().as_str());
+    if is_plain {
+        text.into()
+    } else {
+        yaml_quoted(text)
+    }
+}
+
 fn is_none_or_default_timeout(timeout: &Option<Duration>) -> bool {
     if let Some(timeout) = timeout {
         timeout.as_secs() == DEFAULT_DOCUMENT_TIMEOUT
@@ -452,7 +491,7 @@ impl TestCaseConfig {
                 output.push(format!(
                     "wait: {{timeout: {}, path: {}}}",
                     duration,
-                    path.to_string_lossy(),
+                    yaml_scalar(&path.to_string_lossy()),
                 ))
             } else {
                 output.push(format!("wait: {}", duration))
@@ -461,8 +500,7 @@ impl TestCaseConfig {
         if !self.environment.is_empty() {
             let mut envvars = vec![];
             for (key, value) in self.environment.iter() {
-                // TODO: this will bereak break if the value contains double quotes => use `quote-string` crate?
-                envvars.push(format!("{}: \"{}\"", key, value))
+                envvars.push(format!("{}: {}", yaml_scalar(key), yaml_quoted(value)))
             }
             output.push(format!("environment: {{{}}}", envvars.join(", ")));
         }
